@@ -182,6 +182,8 @@ func (p flowParams) topology() stack.Topology {
 		}
 		ss := fakes.SourceScript{Name: fmt.Sprintf("s%d", s), Batches: batches, ReadMenu: p.ReadMenu, NoMatch: p.NoMatch, LateAckRecv: p.LateAckRecv, IdleBatches: p.IdleBatches}
 		switch p.SrcPositions {
+		case "bare":
+			ss.Bare = []int{1}
 		case "dup":
 			ss.PositionOf = func(i int) opencdc.Position {
 				if i == 1 {
